@@ -113,7 +113,7 @@ def run(ck, m):
 
     # ---- R4 ----------------------------------------------------------------------------
     used_attrs = {}
-    for n in ast.walk(m.tree(IT)):
+    for n in m.walk(IT):
         if isinstance(n, ast.Attribute):
             b = dotted(n.value)
             if b in ("renderable", "self._renderable", "new._renderable"):
